@@ -55,7 +55,7 @@ theorem formatReadArgs_cc (D : Desc) (s : St) (f : Fsm) (i : SvcIn) : (formatRea
 theorem formatTestArgs_cc (D : Desc) (s : St) (f : Fsm) : (formatTestArgs D s f).1.currentChar = s.currentChar := by simp [formatTestArgs]; cc
 theorem processIoWriteWait_cc (s : St) : (processIoWriteWait s).1.currentChar = s.currentChar := by simp [processIoWriteWait]; cc
 theorem processIoWrite_cc (D : Desc) (s : St) (i : SvcIn) : (processIoWrite D s i).1.currentChar = s.currentChar := by simp [processIoWrite]; cc
-theorem printCmdList_cc (D : Desc) (s : St) : (printCmdList D s).currentChar = s.currentChar := by simp [printCmdList]; cc
+theorem printCmdList_cc (D : Desc) (s : St) : (printCmdList D s).currentChar = s.currentChar := by simp [printCmdList, printCmdForm]; cc
 
 @[simp] theorem applyNested_cc (D : Desc) (f : Fsm) (e : Bool) (acts : List Nested) : ∀ s : St,
     (applyNested D f e s acts).currentChar = s.currentChar := by
